@@ -1,12 +1,12 @@
-//! C10 — not built yet.
+//! C10 — see c08.rs (shared binding of spec/ProgramModel.tla); the mode selects the property's verdicts.
 use crate::runner::{Outcome, Summary};
 use crate::Ctx;
 use serde_json::Value;
 
-pub fn replay(_ctx: &Ctx, _case: &Value) -> Outcome {
-    panic!("C10: replay not implemented")
+pub fn replay(ctx: &Ctx, case: &Value) -> Outcome {
+    super::c08::replay(ctx, case)
 }
 
-pub fn drive(_ctx: &Ctx) -> Summary {
-    panic!("C10: drive not implemented")
+pub fn drive(ctx: &Ctx) -> Summary {
+    super::c08::drive(ctx)
 }
